@@ -267,6 +267,12 @@ def poison(v, extra=()):
             else: a = np.empty(n, dtype=np.uint8); a.fill(0xA5)
             junk.append(a)
     del junk
+_ROLL = [0]
+def poison_next():
+    """before a read in the streams that compare an object with a twin: the heap pattern differs from read to read, so that a buffer
+    with unassigned cells (np.empty) shows different contents on the object and on its twin"""
+    _ROLL[0] += 1
+    poison(7.7 + _ROLL[0] * 1.25)
 def arr_sizes(fp):
     out = set()
     for k, v in fp.items():
@@ -1149,6 +1155,7 @@ def graph_target(parts, who):
     if who.startswith("mapper"): return mappers[int(who[6:]) % len(mappers)]
     raise ValueError(who)
 def graph_read(parts, who, name):
+    poison_next()
     try:
         v = getattr(graph_target(parts, who), name)
         if name == "neighbors": v = [v, getattr(v, "sizes", None)]
@@ -1196,6 +1203,7 @@ def run_graph(inp):
 # ----------------------------------------------------------------------------- dataset derivations (Python-side relation)
 DS_VIEWS = {"grids": view_grids, "convolver": view_convolver, "w_tilde": view_w_tilde}
 def ds_read(ds, name):
+    poison_next()
     try:
         v = getattr(ds, name)
         return DS_VIEWS[name](v) if name in DS_VIEWS else enc_val(v)
@@ -1381,13 +1389,40 @@ def run_remask(inp):
         for k in set(ax) | set(bx):
             if k not in ax or k not in bx or not rm_close(ax[k], bx[k]):
                 bad.append(f"{label} ({when}): `{k}` differs (beyond 1e-12) from the history-free twin {[s['how'] for s in chain]}")
+        # independent references (not through a twin): a dataset's quantities follow from its own mask and the caller's arrays
+        hows = [s["how"] for s in chain]
         last = [s for s in chain if s["how"] == "mask"]
-        if cfg.get("cov") is not None and last and not any(s["how"] == "over_sampling" for s in chain):
+        if cfg.get("cov") is not None and "over_sampling" not in hows:      # apply_over_sampling does not carry the matrix (present behaviour)
             got = getattr(ds, "noise_covariance_matrix", None)
-            ref = rm_cov_ref(cfg, last[-1]["mask"])
+            ref = rm_cov_ref(cfg, last[-1]["mask"] if last else np.zeros(cfg["shape"], bool))
             if got is None or np.shape(got) != ref.shape or not np.array_equal(np.asarray(got, dtype=float), ref.astype(float)):
                 bad.append(f"{label} ({when}): noise_covariance_matrix (shape {np.shape(got)}) is not the caller's matrix restricted to the "
                            f"{ref.shape[0]} unmasked pixels of the dataset's own mask")
+        # no derivation changes the kernel: it is the caller's (normalised unless use_normalized_psf=False), the flag is the caller's
+        try:
+            want_norm = cfg.get("use_normalized_psf", True)
+            if getattr(ds, "use_normalized_psf", None) is not want_norm and "use_normalized_psf" in ds.__dict__:
+                bad.append(f"{label} ({when}): use_normalized_psf is {ds.use_normalized_psf!r}, the source dataset was built with {want_norm!r}")
+            if cfg.get("psf") is None:
+                if ds.psf is not None: bad.append(f"{label} ({when}): a psf appeared")
+            else:
+                pv = np.array(cfg["psf"]["v"], dtype=float).reshape(cfg["psf"]["shape"])
+                if want_norm: pv = pv / pv.sum()
+                if ds.psf is None or not rm_close([np.array(ds.psf.native._array, dtype=float)], [pv]):
+                    bad.append(f"{label} ({when}): psf is not the caller's kernel" + (" normalised" if want_norm else " as given (use_normalized_psf=False)"))
+        except Exception as e: bad.append(f"{label} ({when}): reading psf raised {type(e).__name__}")     # noqa
+        if hows == ["mask"] or hows == []:
+            H, W = cfg["shape"]
+            mk = np.array(last[-1]["mask"], dtype=bool) if last else np.zeros((H, W), bool)
+            try:
+                if tuple(ds.data.shape_native) == (H, W):       # not padded
+                    refs = [("data", np.array(cfg["data"], dtype=float).reshape(H, W))]
+                    if cfg.get("noise") is not None: refs.append(("noise_map", np.array(cfg["noise"], dtype=float).reshape(H, W)))
+                    for nm_, full in refs:
+                        x = getattr(ds, nm_)
+                        if not (same_bits(x.native, np.where(mk, 0.0, full)) and same_bits(x.slim, full[~mk]) and np.array_equal(np.array(x.mask), mk)):
+                            bad.append(f"{label} ({when}): `{nm_}` is not the caller's array under the dataset's own mask")
+            except Exception as e: bad.append(f"{label} ({when}): reading data / noise_map raised {type(e).__name__}")     # noqa
     for st in inp["steps"]:
         if len(bad) > 6: break
         if st["how"] == "read":
@@ -1658,6 +1693,7 @@ EDIT_Q = {"array": KINDS["array"].plain + ["in_counts"], "kernel": KINDS["kernel
           "mask": KINDS["mask"].plain + ["circular_radius", "native_for_slim", "edge", "unmasked_grid"],
           "dataset": ["signal_to_noise_map", "signal_to_noise_max", "data", "noise_map"]}
 def edit_read(kind, obj, name):
+    poison_next()
     try:
         if name == "native_for_slim": return enc_val(obj.derive_indexes.native_for_slim)
         if name == "edge": return enc_val(obj.derive_mask.edge)
@@ -1798,6 +1834,7 @@ def build_fit(cfg):
     return fit, ds, mappers, owned + [dm]
 def fit_read(parts, who, name):
     fit, ds, mappers = parts
+    poison_next()
     if who == "fit":
         try:
             v = getattr(fit, name)
@@ -1892,6 +1929,7 @@ def build_mesh_graph(cfg):
     owned = [m, pts, vals, pm, dv, nv, pv, mask, grid, data, noise, psf, osd, settings]
     return {"mesh": mesh, "mapper": mapper, "valued": valued, "inv": inv}, owned
 def mesh_read(parts, who, name, cfg):
+    poison_next()
     try:
         t = parts[who]
         if name == "interp":
@@ -2078,6 +2116,7 @@ def gencode(v, name):
     try: return enc_val(v)
     except TypeError: return [zlib.crc32(repr(sorted((k, str(x)) for k, x in leaves(v, "v").items())).encode())]
 def gread_node(parts, node, cfg):
+    poison_next()
     try: return digest(gencode(gvalue(parts, node, cfg), node[1]))
     except Exception as e:   # noqa
         return digest(exc_code(e))
